@@ -279,7 +279,7 @@ def check_property(prop, tier, seed0):
         kind = scen.get("kind", "fiber")
         bdir = build(kind if kind == "fiber" else "thread", scen.get("binary", "core"))
         binary = os.path.join(bdir, scen.get("binary", "core"))
-        n = scen.get("seeds", {}).get(tier, nseeds)
+        n = cfgp.get("scenario_seeds", {}).get(sname, {}).get(tier) or scen.get("seeds", {}).get(tier, nseeds)
         seeds = [seed0 * 100003 + i for i in range(1, n + 1)]
         tdir = os.path.join(outdir, "traces")
         t1 = time.time()
